@@ -496,8 +496,14 @@ func (s *Serializer) Deserialize(src []byte, dst *ParsedJson) (*ParsedJson, erro
 	} else {
 		if uint64(cap(dst.Tape)) < ts {
 			dst.Tape = make([]uint64, ts)
+		} else {
+			// End tags are checked against what their start tag wrote below,
+			// so entries left over from an earlier use must not be visible.
+			dst.Tape = dst.Tape[:ts]
+			for i := range dst.Tape {
+				dst.Tape[i] = 0
+			}
 		}
-		dst.Tape = dst.Tape[:ts]
 	}
 
 	// String size
